@@ -220,10 +220,12 @@ impl FunctionExpression for CompactFn {
     }
 
     fn type_def(&self, state: &state::TypeState) -> TypeDef {
-        if self.value.type_def(state).is_array() {
-            TypeDef::array(Collection::any())
-        } else {
-            TypeDef::object(Collection::any())
+        let td = self.value.type_def(state);
+
+        match (td.contains_array(), td.contains_object()) {
+            (true, true) => TypeDef::array(Collection::any()).or_object(Collection::any()),
+            (true, false) => TypeDef::array(Collection::any()),
+            (false, _) => TypeDef::object(Collection::any()),
         }
     }
 }
